@@ -207,3 +207,106 @@ func init() {
 		return nil
 	}})
 }
+
+// ---------------------------------------------------------------- C13: one []Code slice handed to several constructs
+
+// The caller's slice `xs` (with nil and Null() items at random positions) is passed with `xs...` to
+// two list constructs; both are rendered (in either order, twice).  Each must render exactly like
+// the same construct built from its OWN copy of the items, and the caller's slice must still hold
+// what the caller put there.
+func init() {
+	directExps = append(directExps, directExp{name: "slice-shared-by-two-constructs", prop: "C13", run: func(r *Rng) *Finding {
+		var apis []string
+		for name, kind := range genConstructs {
+			if kind == "variadic" {
+				if _, ok := pkgFuncs[name]; ok {
+					apis = append(apis, name)
+				}
+			}
+		}
+		sort.Strings(apis)
+		n := 2 + r.Intn(7)
+		itemSeed := r.Next()
+		mk := func() []jen.Code {
+			rr := NewRng(itemSeed) // same choices every time it is called
+			var xs []jen.Code
+			for i := 0; i < n; i++ {
+				switch rr.Intn(5) {
+				case 0:
+					xs = append(xs, nil)
+				case 1:
+					xs = append(xs, jen.Null())
+				default:
+					xs = append(xs, jen.Id(fmt.Sprintf("a%d", i)))
+				}
+			}
+			return xs
+		}
+		var desc []string
+		var kinds []string
+		for _, x := range mk() {
+			switch {
+			case x == nil:
+				kinds = append(kinds, "nil")
+			default:
+				kinds = append(kinds, fmt.Sprintf("%#v", x))
+			}
+		}
+		a1, a2 := pick(r, apis), pick(r, apis)
+		desc = append(desc, fmt.Sprintf("xs := []Code{%s}; s1 := Id(\"f\").%s(xs...); s2 := Id(\"g\").%s(xs...)", strings.Join(kinds, ", "), a1, a2))
+		call := func(api string, recv *jen.Statement, xs []jen.Code) *jen.Statement {
+			m := reflect.ValueOf(recv).MethodByName(api)
+			args := make([]reflect.Value, len(xs))
+			for i, x := range xs {
+				if x == nil {
+					args[i] = reflect.Zero(reflect.TypeOf((*jen.Code)(nil)).Elem())
+				} else {
+					args[i] = reflect.ValueOf(x)
+				}
+			}
+			return m.Call(args)[0].Interface().(*jen.Statement)
+		}
+		callSlice := func(api string, recv *jen.Statement, xs []jen.Code) *jen.Statement {
+			m := reflect.ValueOf(recv).MethodByName(api)
+			return m.CallSlice([]reflect.Value{reflect.ValueOf(xs)})[0].Interface().(*jen.Statement)
+		}
+		raw := func(s *jen.Statement) string {
+			f := jen.NewFile("p")
+			f.NoFormat = true
+			f.Add(s)
+			var b bytes.Buffer
+			if err := f.Render(&b); err != nil {
+				return "error: " + err.Error()
+			}
+			return b.String()
+		}
+		// references: each construct from its own fresh items
+		want1 := raw(call(a1, jen.Id("f"), mk()))
+		want2 := raw(call(a2, jen.Id("g"), mk()))
+		xs := mk()
+		before := append([]jen.Code{}, xs...)
+		s1 := callSlice(a1, jen.Id("f"), xs)
+		s2 := callSlice(a2, jen.Id("g"), xs)
+		order := []int{1, 2, 1, 2}
+		if r.Bool() {
+			order = []int{2, 1, 2, 1}
+		}
+		for _, k := range order {
+			got, want, s := raw(s1), want1, "s1"
+			if k == 2 {
+				got, want, s = raw(s2), want2, "s2"
+			}
+			desc = append(desc, "render "+s)
+			if got != want {
+				return &Finding{Property: "C13", Shape: "shared-slice-changes-output", What: fmt.Sprintf("%s built from a slice that another construct also received renders differently from the same construct built from its own items", s),
+					Case: strings.Join(desc, "\n"), Expected: trunc(want), Observed: trunc(got)}
+			}
+		}
+		for i := range xs {
+			if (xs[i] == nil) != (before[i] == nil) || (xs[i] != nil && fmt.Sprintf("%p", xs[i]) != fmt.Sprintf("%p", before[i])) {
+				return &Finding{Property: "C13", Shape: "caller-slice-modified", What: fmt.Sprintf("rendering changed element %d of the caller's slice", i), Case: strings.Join(desc, "\n")}
+			}
+		}
+		return nil
+	}})
+}
